@@ -85,6 +85,14 @@ func (a *asm) push(n uint64) {
 	a.op(buf...)
 }
 
+func (a *asm) pushBig(v *big.Int) {
+	b := v.Bytes()
+	if len(b) == 0 {
+		b = []byte{0}
+	}
+	a.pushBytes(b)
+}
+
 func (a *asm) pushBytes(bs []byte) {
 	a.op(byte(opPUSH1 + len(bs) - 1))
 	a.op(bs...)
@@ -291,7 +299,7 @@ func (c *compiler) body(a *asm, f *frame, self string) {
 			a.push(uint64(inSize))
 			a.push(uint64(inOff))
 			if x.ck == "call" || x.ck == "callcode" {
-				a.push(uint64(x.value))
+				a.pushBig(x.val())
 			}
 			a.pushBytes(addr[:])
 			a.push(gasOp)
@@ -322,7 +330,7 @@ func (c *compiler) body(a *asm, f *frame, self string) {
 			}
 			a.push(uint64(len(init)))
 			a.push(0x100)
-			a.push(uint64(x.value))
+			a.pushBig(x.val())
 			if x.two {
 				a.op(opCREATE2)
 			} else {
